@@ -154,6 +154,7 @@ type Visit struct {
 	PostErr bool   `json:"post_err,omitempty"`
 	Payload int    `json:"payload,omitempty"` // 0: unique pointer payloads; >0: index into the zoo (prep and exec values)
 	FBNil   bool   `json:"fb_nil,omitempty"`  // a rescuing fallback returns (nil, nil): nil then IS the exec outcome
+	PrepErrRes bool `json:"prep_err_res,omitempty"` // Result-style prep functions only: prep returns (NewErrorResult(e), nil) — a successful prep whose payload is nil
 	PanicIn string `json:"panic_in,omitempty"` // "prep" | "exec" | "post": that callback panics on this visit (the run is over; what a LATER run of the same objects does is what is looked at)
 }
 
@@ -995,6 +996,12 @@ func (x *Exec) build(id int) flyt.Node {
 		v, err := c.prep(ctx, s)
 		if err != nil {
 			return flyt.Result{}, err
+		}
+		if c.script().PrepErrRes {
+			// prep succeeds (nil error) and hands back an error RESULT: the phase has not failed; what such a Result
+			// carries as its value is nil
+			c.curPrep = nil
+			return flyt.NewErrorResult(errors.New("soft problem noted by prep")), nil
 		}
 		return flyt.NewResult(v), nil
 	}
